@@ -18,11 +18,12 @@ import common
 import translate_codec
 
 CODEC_FILES = ["gen/Facts_Status.v", "Codec/Tok.v", "Codec/Num.v", "Codec/Status.v", "Codec/Rows.v",
-               "Codec/Mats.v", "Codec/Objs.v", "Codec/Thms.v"]
+               "Codec/Mats.v", "Codec/Objs.v", "Codec/Thms.v", "Codec/Float.v"]
 # named lemmas proved by vm_compute over the regenerated fact lists
 FACT_OBLIGATIONS = ["ph_fresh_none", "grid_fresh_none", "bds_fresh_none", "og_fresh_none", "box_fresh_none",
                     "ph_arity", "grid_arity", "bds_arity", "og_arity", "box_arity",
                     "linexpr_kw_agree", "fset_idem_check"]
+# (Float.v: bounded_check_true is a vm_compute obligation too, but it does not depend on the facts)
 
 FLAG = re.compile(r"^[+-](ZE|EM|CM|GM|CS|GS|CP|GP|SC|SG|SPC|SPR|EUP|UN)$")
 STATUS_CLASS = {"C_Polyhedron": "ph", "NNC_Polyhedron": "ph", "Grid": "grid",
@@ -72,12 +73,23 @@ def compile_harness_private(src="run_codec.cc", config="mpz"):
 
 def coq_witnesses(chk):
     """Evaluate the search results the DECIDED theorems branch on."""
-    src = "Require Import PPLV.Codec.Status NArith.\n"
+    src = "Require Import PPLV.Codec.Status NArith List Bool.\nOpen Scope N_scope.\n"
     names = ["ph", "grid", "bds", "og", "box"]
     for n in names:
         src += 'Goal True. idtac "@@@ any %s". exact I. Qed.\nEval vm_compute in (cex_any %s_class).\n' % (n, n)
         src += ('Goal True. idtac "@@@ res %s". exact I. Qed.\n'
                 'Eval vm_compute in (match cex_any %s_class with Some (t, s) => status_result %s_class t s | None => None end).\n' % (n, n, n))
+    # every failing (target, state) pair of the exhaustive search must be explained by the root cause of a known
+    # finding: a flag that the loader only ever SETS (no else-branch in the regenerated reader facts) is on in
+    # the target and off in the dumped state.  Pairs not explained that way are listed (first 5).
+    expl = {"ph": "negb (N.land t 1 =? 0) && (N.land s 1 =? 0)", "grid": "negb (N.land t 1 =? 0) && (N.land s 1 =? 0)",
+            "bds": "negb (N.land t 1 =? 0) && (N.land s 1 =? 0)", "og": "negb (N.land t 1 =? 0) && (N.land s 1 =? 0)",
+            "box": "negb (N.land (N.land t (N.lxor s 7)) 3 =? 0)"}
+    for n in names:
+        src += 'Goal True. idtac "@@@ unexplained %s". exact I. Qed.\n' % n
+        src += ('Eval vm_compute in (firstn 5 (filter (fun p => let t := fst p in let s := snd p in '
+                'negb (rt_ok %s_class t s) && negb (%s)) (list_prod (states (sc_nbits %s_class)) (states (sc_nbits %s_class))))).\n'
+                % (n, expl[n], n, n))
     src += 'Goal True. idtac "@@@ boxfresh". exact I. Qed.\nEval vm_compute in (cex_from box_class box_fresh_object_status).\n'
     src += ('Goal True. idtac "@@@ boxfreshres". exact I. Qed.\nEval vm_compute in (match cex_from box_class box_fresh_object_status '
             'with Some s => status_result box_class box_fresh_object_status s | None => None end).\n')
@@ -313,6 +325,20 @@ def _run(chk, exe, judge, wit, work):
                 # the theorem says this (target, state) pair does NOT round-trip and which word results
                 chk.broken.append(("witness-replay-disagrees:" + n, "model %s, real %s" % (wit.get("res " + n), out.strip())))
         chk.extra["status_witness_replays"] = reps
+        # into-any failures of the model that no known finding explains: replay each on the real code
+        for n in ["ph", "grid", "bds", "og", "box"]:
+            pairs = re.findall(r"\((\d+),\s*(\d+)\)", wit.get("unexplained " + n, ""))
+            for t, s_ in pairs:
+                rc, out = common.sh([exe, "witness", n, t, s_], timeout=60)
+                mm = re.search(r"load=(\d) result=(\d+) same=(\d)", out)
+                chk.count(1)
+                if mm and mm.group(3) == "0":
+                    chk.failure({"site": "Status::ascii_load", "kind": "stale-flag-in-used-target-not-EM", "class": n,
+                                 "target": int(t), "state": int(s_)},
+                                {"witness": {"class": n, "target_status_word": int(t), "state_status_word": int(s_)},
+                                 "real": out.strip(), "theorem": "roundtrip_into_any_*_Status_decided (exhaustive search)"})
+                else:
+                    chk.broken.append(("unexplained-model-witness-not-reproduced:" + n, "%s %s: %s" % (t, s_, out.strip())))
 
     if chk.replay:
         rp = json.load(open(chk.replay))
